@@ -2,6 +2,7 @@ import Apko.Model.Accounts
 import Apko.Proofs.Lemmas.Accounts
 import Apko.Proofs.Lemmas.AccountsExt
 import Apko.Proofs.Lemmas.AccountsOpen
+import Apko.Proofs.Lemmas.AccountsWalk
 import Apko.Generated.Accounts
 /-! C13 — declared accounts and path mutations are realized in the image
 (theorems over `Model/Accounts.lean`, which composes `Model/FS.lean` and `Model/Formats.lean`) -/
@@ -369,6 +370,50 @@ theorem symlink_post (c : Cfg) (hc : c.posix = false) (fs fs' : FS) (m : Mutatio
   refine ⟨k, by rw [entryOf_shape hsh]; exact he, ?_, ?_⟩
   · rw [hsh.sym k]; exact hsym
   · rw [hsh.target k]; exact htg
+
+/-- the recursive walk of `mutateDirectory`: the root is visited, and every visited path resolves to
+a node with the declared attributes when the walk is over -/
+theorem mutateDirectory_walk (c : Cfg) (fs fs' : FS) (m : Mutation) (vs : List Text) (hi : FS.Inv fs)
+    (hr : m.recursive = true) (h : mutateDirectory c fs m = (fs', none, vs)) :
+    FS.Inv fs' ∧ m.path ∈ vs ∧ Good c m.perms m.uid m.gid fs' vs := by
+  unfold mutateDirectory at h
+  have hi1 := inv_act c fs (.mkdirAll m.path (permMode m.perms)) hi (by intro p q h; cases h)
+  cases ha : act c fs (.mkdirAll m.path (permMode m.perms)) with
+  | mk fs1 r =>
+    rw [ha] at hi1
+    cases r with
+    | some e => simp [ha] at h
+    | none =>
+      simp only [ha, hr, if_true] at h
+      unfold walkRoot at h
+      simp only [step] at h
+      cases hg : getNode c fs1 m.path with
+      | error e => simp [hg] at h
+      | ok i =>
+        simp only [hg] at h
+        obtain ⟨h1, h2, h3⟩ := walkDir_good c m.perms m.uid m.gid _ fs1 fs' m.path _ vs [] hi1
+          (by intro p hp; cases hp) h
+        exact ⟨h1, h3, by simpa using h2⟩
+
+/-- **mutation_post (directory, recursive)**: after a successful iteration for a recursive
+`directory` mutation, the declared path and every path the walk below it visited resolve to nodes
+that carry exactly the declared permission bits and owner. -/
+theorem recursive_post (c : Cfg) (fs fs' : FS) (m : Mutation) (hi : FS.Inv fs)
+    (ht : m.type = tDirectory) (hr : m.recursive = true) (h : mutateOne c fs m = (fs', none)) :
+    m.path ∈ (mutateDirectory c fs m).2.2 ∧
+    ∀ p ∈ (mutateDirectory c fs m).2.2, ∃ i, follow c fs' p = some i ∧
+      permBitsOK (fs'.node i) m.perms = true ∧ ownerOK (fs'.node i) m.uid m.gid = true := by
+  rw [mutateOne_directory c fs m ht] at h
+  obtain ⟨fs1, h1, h2⟩ := andThen_ok (liftE_ok h)
+  simp only [Prod.mk.injEq] at h1
+  have hd : mutateDirectory c fs m = (fs1, none, (mutateDirectory c fs m).2.2) := by
+    rw [← h1.1, ← h1.2]
+  obtain ⟨hi1, hroot, hgood⟩ := mutateDirectory_walk c fs fs1 m _ hi hr hd
+  obtain ⟨_, hg'⟩ := good_cb c m.perms m.uid m.gid fs1 fs' _ m.path hi1 hgood h2
+  refine ⟨hroot, ?_⟩
+  intro p hp
+  obtain ⟨i, hi', ha⟩ := hg' p (List.mem_cons_of_mem _ hp)
+  exact ⟨i, by simp [follow, hi'], ha.1, ha.2⟩
 
 /-! ## witnesses of the recorded findings (the full statements fail on the model the driver runs) -/
 
